@@ -331,7 +331,11 @@ func (m *jsModel) dispatch(d Disp, nameIdx int, helper bool) (string, bool) {
 		// T.m(x) copies x at the call site: only an object behind an embedded pointer stays shared
 		shared = shared && e.ind
 	}
-	if e.recv == "p" || shared {
+	// does the second call see the increment of the first?  With a pointer receiver it does,
+	// unless T.m(x) handed each call its own copy of x and the object the forwarders reach
+	// (which, with the deviations above, need not be the one Go's selector denotes) lies inside
+	// that copy rather than behind an embedded pointer
+	if (e.recv == "p" && (d.Form != "mexprV" || e.ind)) || shared {
 		b = a + 1
 	}
 	code := (e.owner+1)*100 + nameIdx*10
